@@ -97,7 +97,7 @@ func proveRange(raw *C.uchar, inLen C.int, out **C.uchar) (ret C.int) {
 	if err := tms.TlvDecode(inBytes(raw, inLen)); err != nil {
 		return -1
 	}
-	bp, cs, masks, ok := bpProve(amounts)
+	bp, cs, masks, ok := bpProve(amounts, sk)
 	if !ok {
 		return -1
 	}
